@@ -39,17 +39,20 @@ public:
     }
 
     void notify(Args... args) {
+        // The cache shares ownership of the observers: a callback may unsubscribe
+        // itself or an observer that is being executed by an outer notify(),
+        // and that observer must stay alive until the round is over
         struct CachedDetails {
-            Observer_t *observer;
+            std::shared_ptr<Observer_t> observer;
             SubscriptionId subscriptionId;
         };
 
         std::forward_list<CachedDetails> cachedDetails;
 
         for (auto &details : m_observers)
-            cachedDetails.emplace_front(details.observer.get(), details.subscriptionId);
+            cachedDetails.emplace_front(details.observer, details.subscriptionId);
 
-        for (auto [observer, subscriptionId] : cachedDetails) {
+        for (auto &[observer, subscriptionId] : cachedDetails) {
             if (isSubscriptionIdValid(subscriptionId)) {
                 (*observer)(args...);
 
@@ -83,7 +86,7 @@ private:
 
 private:
     struct ObserverDetails {
-        ObserverPtr_t observer;
+        std::shared_ptr<Observer_t> observer;
         SubscriptionId subscriptionId;
     };
 
